@@ -5,7 +5,7 @@ CONSTANTS
   FixD6 = TRUE
   FixD3 = TRUE
   FixD7 = TRUE
-  MaxCfg = 2
+  MaxCfg = 1
   MaxParse = 3
   Family = "c16"
   Reconfigure = TRUE
